@@ -83,6 +83,7 @@ class Sim:
         self.yielding_calls = 0
         self.fault_counts = {}
         self.fc_calls = []  # (rid, key, text)
+        self.data_seen = set()  # id() of the evaluatable-data bodies that peers were handed / read
         self.probes = {}
         self.sim_time = 0.0
         self.steps = 0
@@ -160,8 +161,8 @@ class Sim:
                 self.event("finish", rid, kind, key, occ)
 
     # ------------------------------------------------------------------ peer values (pure functions of request data)
-    @staticmethod
-    def rc_value(key, evaluatable_data, context=None):
+    def rc_value(self, key, evaluatable_data, context=None):
+        self.data_seen.add(id(evaluatable_data.body))
         scope = getattr(context, "scope", None)
         if scope in ("FULFILLED", "UNFULFILLED", "UNKNOWN"):
             return ConditionFulfilledValue(scope)  # an evaluation context handed in by the caller decides
